@@ -67,6 +67,8 @@ class World:
         self.pev = PE.Evaluator(dict(PE.module_regexes(m, PT)))
         self.pattern_mod = PE.Obj({n: self.mk_pat(e["pattern"], e["flags"], e.get("value")) for n, e in pats.items() if "pattern" in e})
         self.pev.g.update(self.pattern_mod.fields)
+        # class bodies build their own patterns: pattern.Pattern(label, regex, optional=0, flags=0, value=None)
+        self.pattern_mod.fields["Pattern"] = lambda label, pat, optional=0, flags=0, value=None: self.mk_pat(pat, flags, value)
         for mod in (F03, UT):
             for name, val in PE.module_regexes(m, mod).items():
                 g.setdefault(name, val)
@@ -1469,4 +1471,110 @@ def full_roundtrip_rule(m, rid, tokens=False, std="f2003", samples=None, floor=2
         elif not tokens and n1 != n2:
             r.fail("%s|full|tree" % ident, "%s: %r is regenerated as %r, whose parse tree differs from the tree of the source (same text, "
                    "different structure)" % (cname, text, t1), m.class_loc(key))
+    return r
+
+
+# ---------------------------------------------------------------------------------------------------------------
+# C14: match_cpp_directive interpreted on a model reader, one directive line at a time
+class _ReaderModel:
+    """marker types for isinstance tests in interpreted reader-level code"""
+
+
+class _CppItemModel:
+    pass
+
+
+def cpp_dispatch_rule(m, rid):
+    import json
+    import os
+    CPP = "fparser.two.C99Preprocessor"
+    r = RuleResult(rid, "match_cpp_directive, interpreted on a model reader holding one directive item: every directive sample of the oracle "
+                        "is turned into a node of its class (whatever way the function selects the classes to try), and the item is handed "
+                        "back before the classes are tried")
+    kinds = json.load(open(os.path.join(os.path.dirname(os.path.dirname(os.path.abspath(__file__))), "oracle", "cpp.json")))["kinds"]
+    r.floor = sum(len(k["samples"]) for k in kinds) - 3
+    f = m.module_func(CPP, "match_cpp_directive")
+    if f is None:
+        r.error("match_cpp_directive vanished")
+        return r
+    world = World(m)
+    world.ev.max_steps = 20000000
+    g = world.ev.g
+    for name, val in PE.module_regexes(m, CPP).items():
+        g.setdefault(name, val)
+    cpp_classes = {c["name"]: k for k, c in m.classes.items() if c["module"] == CPP}
+    for name, k in cpp_classes.items():
+        world.classes.setdefault(name, k)
+
+    class ReaderClassRef(ClassRef):
+        """Cls(reader): what Base.__new__ does with a reader -- take the item, match its line, give the item back on failure"""
+
+        def __call__(self, arg, *a, **k):
+            if isinstance(arg, _RM):
+                item = arg.get(world.ev, "get_item")()
+                if item is None:
+                    return None
+                try:
+                    node = world.full_parse(self.key, item.get(world.ev, "line"))
+                except PE.PyRaise as err:
+                    if err.exc_type != "NoMatchError":
+                        raise
+                    arg.get(world.ev, "put_item")(item)
+                    return None
+                return node
+            return ClassRef.__call__(self, arg, *a, **k)
+
+    class _RM(PE.Obj, _ReaderModel):
+        pass
+
+    class _IM(PE.Obj, _CppItemModel):
+        pass
+    module_ns = PE.Obj({name: ReaderClassRef(world, k) for name, k in cpp_classes.items()})
+    for name, k in cpp_classes.items():
+        g[name] = module_ns.fields[name]
+    g["FortranReaderBase"] = _ReaderModel
+    g["CppDirective"] = _CppItemModel
+    g["sys"] = PE.Obj({"modules": {CPP: module_ns}})
+    g["__name__"] = CPP
+    base_isinstance = g["isinstance"]
+    g["isinstance"] = lambda o, c: (isinstance(o, c) if isinstance(c, type) else base_isinstance(o, c))
+    names = m.snap.get("cpp_class_names")
+    if names:
+        g["CPP_CLASS_NAMES"] = list(names)
+    # other module-level tables of the module (a dispatch dictionary, say), interpreted in source order
+    for node in m.files[m.modfile[CPP]][1].body:
+        if isinstance(node, ast.Assign) and len(node.targets) == 1 and isinstance(node.targets[0], ast.Name) and node.targets[0].id not in g:
+            try:
+                g[node.targets[0].id] = world.ev.ev(node.value, {})
+            except (PE.Unsupported, PE.PyRaise):
+                pass
+    for kind in kinds:
+        for sample in kind["samples"]:
+            r.instances += 1
+            queue = [_IM({"line": sample.strip()})]
+            log = []
+
+            def get_item():
+                log.append("get")
+                return queue.pop(0) if queue else None
+
+            def put_item(it):
+                log.append("put")
+                queue.insert(0, it)
+            reader = _RM({"get_item": get_item, "put_item": put_item})
+            world.ev.steps = 0
+            try:
+                node = world.ev.run_function(f.node, [reader])
+            except PE.Unsupported as err:
+                r.undet("%r: %s" % (sample, err))
+                continue
+            except PE.PyRaise as err:
+                node = "raises %s" % err.exc_type
+            got = node.cls.name if isinstance(node, Inst) else node
+            ok = got == kind["cls"]
+            r.ob(ok, "%r -> %s" % (sample, got) if r.obligations % 8 == 0 else None)
+            if not ok:
+                r.fail("match_cpp_directive|%s|%s" % (kind["kind"], sample), "match_cpp_directive gives %s for the directive line %r; a %s node is "
+                       "expected: the line is not kept as a directive node (it is then parsed as Fortran, or the parse fails)"
+                       % (got, sample, kind["cls"]), m.loc(f))
     return r
